@@ -1,6 +1,8 @@
 /-
-  Umbrella of property C09: the mesh-level theorems (Props/C09.lean) and the WKT parser theorems (Props/C09wkt.lean).
+  Umbrella of property C09: the mesh-level theorems (Props/C09.lean), the WKT parser theorems (Props/C09wkt.lean)
+  and the join_two_vertices theorems (Props/C09join.lean).
   lean/props.json names this module for C09, so that `./check C09` builds and audits both.
 -/
 import ForsysModel.Props.C09
 import ForsysModel.Props.C09wkt
+import ForsysModel.Props.C09join
